@@ -403,12 +403,14 @@ def r19e(ctx, run):
             resolver=lambda path: local_fns.get(path.rsplit("::", 1)[-1]) if path.rsplit("::", 1)[-1] not in ("classify_arg", "split_aggregate") else None,
             funcs={"classify_arg": classify, "FnAbi::new": lambda i, a: Obj("FnAbi", args=[], ret=None),
                    "PassMode::cast": lambda i, a: Term("regs"), "PassMode::direct": lambda i, a: Term("direct"),
-                   "PassMode::indirect_by_val": lambda i, a: Term("memory"), "split_aggregate": lambda i, a: Term("split"),
+                   "PassMode::indirect_by_val": lambda i, a: Term("memory", a[0]), "split_aggregate": lambda i, a: Term("split"),
                    # a bare pointer to the caller's own value: not a System V way to pass an argument (memory-class arguments are COPIED onto the stack)
                    "PassMode::indirect": lambda i, a: Term("pointer-to-caller's-value")},
             methods={"is_zero_sized": lambda i, r, a: ret_cls == "void" if repr(r) == repr(ret) else False,
                      "is_aggregate": lambda i, r, a: tys[repr(r)][1], "get_final_ty": lambda i, r, a: r, "into_real_type": lambda i, r, a: r,
-                     "stride": lambda i, r, a: 8, "size": lambda i, r, a: 8, "next_multiple_of": lambda i, r, a: r})
+                     # a size that is no multiple of eight (a struct of three i32): the copy an argument in memory gets must be a whole number of eightbytes
+                     "stride": lambda i, r, a: 12, "size": lambda i, r, a: 12,
+                     "next_multiple_of": lambda i, r, a: (r + a[0] - 1) // a[0] * a[0] if isinstance(r, int) and isinstance(a[0], int) and a[0] > 0 else Term("rounded", r, a[0])})
         it.consts.update({"Class::Int": cls("Int"), "Class::Sse": cls("Sse")})
         orig = it.eval
 
@@ -425,6 +427,13 @@ def r19e(ctx, run):
             run.finding("fn_ty_to_abi", "alloc:" + key, f.file, f.ln, "cannot establish the argument passing of %s: %s" % (desc, getattr(c, "what", c)))
             return
         got = [m.op if isinstance(m, Term) else repr(m) for m, _ in sig.fields["args"]]
+        for m, _ in sig.fields["args"]:
+            if isinstance(m, Term) and m.op == "memory":
+                sz = m.args[0] if m.args else None
+                run.check(isinstance(sz, int) and sz % 8 == 0 and sz >= 12, f.site(), "%s: the argument in memory is copied as %s bytes (12 rounded up to whole eightbytes)" % (desc, sz),
+                          "fn_ty_to_abi", "memory-size:" + key, f.file, f.ln,
+                          "%s: an argument of 12 bytes that goes to memory is given %s bytes; the stack copy must cover the value and be a whole number of eightbytes (16) - Cranelift "
+                          "rejects a StructArgument whose size is no multiple of 8 with a panic, so a well-typed program would crash the compiler" % (desc, sz))
         # reference allocation
         ints, sses = 6, 8
         if ret_cls is None:
